@@ -113,10 +113,6 @@ theorem prefixSum_delay_plain (f : Nat → Rat) (k i : Nat) :
     have h2 : k + j - k = j := by omega
     simp [delay, h1, h2]
 
-/-- the regular grid `t0, t0+dt, …` with `n` points -/
-def uniformGrid (n : Nat) (t0 dt : Rat) : List Rat :=
-  (List.range n).map (fun (j : Nat) => t0 + dt * (j : Rat))
-
 theorem searchsorted_uniform (n : Nat) (t0 dt x : Rat) (hdt : 0 < dt) :
     searchsorted (uniformGrid n t0 dt) x = min n (Int.toNat ⌈(x - t0) / dt⌉) := by
   unfold searchsorted uniformGrid
